@@ -2,6 +2,7 @@ package checks
 
 import (
 	"fmt"
+	"os"
 	"reflect"
 	"sort"
 	"strings"
@@ -165,6 +166,37 @@ func c11Check(text string, assignKind int, monitor bool, secSecrets []string) (g
 			add("history", "C11:history-error:"+h.name, fmt.Sprintf("%v / %v", err1, err2))
 		} else if string(fresh) != string(after) {
 			add("history", "C11:stale-after-"+h.name, fmt.Sprintf("after (config, assignment) followed by %s the generated file differs from the one a fresh injector writes for the final input", h.name))
+		}
+	}
+	// a write of the generated file that fails is not acknowledged, and the repeated update writes the file
+	other := c11Assign((assignKind + 1) % 5)
+	freshOther, errO := pipe.Inject(info, other, opt)
+	for _, withFirst := range []bool{true, false} {
+		var first map[string][]*target.Target
+		if withFirst {
+			first = assigned
+		}
+		file, failedAck, err := pipe.InjectRetryAfterWriteError(info, first, other, opt)
+		switch {
+		case err != nil || errO != nil:
+			add("history", "C11:history-error:write-error-then-retry", fmt.Sprintf("%v / %v", err, errO))
+		case failedAck:
+			add("history", "C11:write-error-acknowledged", "an update whose file write failed was acknowledged")
+		case string(file) != string(freshOther):
+			add("history", "C11:stale-after-write-error-then-retry", fmt.Sprintf("assignment (first=%v), then an assignment whose file write fails, then the same assignment again (acknowledged): the file on disk differs from the one a fresh injector writes for it", withFirst))
+		}
+	}
+	// a sidecar running from a configuration file: a reload of content the loader rejects changes nothing
+	for _, rj := range []struct{ name, text string }{
+		{"same-length", strings.Replace(text, "job_name: j2", "job_nmae: j2", 1)},
+		{"shorter", "scrape_configs: [\n"},
+		{"longer", text + "\nbogus_top_level_key: 1\n"},
+	} {
+		after, err := pipe.InjectAfterRejectedFileReload(fmt.Sprintf("%s/c11-file-%d", os.Getenv("VERIF_SCRATCH"), os.Getpid()), text, rj.text, assigned, other, opt)
+		if err != nil || errO != nil {
+			add("history", "C11:history-error:rejected-file-reload", fmt.Sprintf("%v / %v", err, errO))
+		} else if string(after) != string(freshOther) {
+			add("history", "C11:stale-after-rejected-file-reload:"+rj.name, "configuration file loaded, assignment, file replaced by content the loader rejects ("+rj.name+") and reloaded, next assignment: the generated file differs from the one a fresh injector writes for the running configuration")
 		}
 	}
 	// jobs, order
